@@ -91,7 +91,17 @@ func (cup *CreateClientProposal) ValidateBasic() error {
 		return err
 	}
 
-	return clientState.Validate()
+	if err := clientState.Validate(); err != nil {
+		return err
+	}
+
+	// nothing downstream validates the content of the consensus state the proposal installs
+	consensusState, err := UnpackConsensusState(cup.ConsensusState)
+	if err != nil {
+		return err
+	}
+
+	return consensusState.ValidateBasic()
 }
 
 // UnpackInterfaces implements UnpackInterfacesMessage.UnpackInterfaces
@@ -158,7 +168,17 @@ func (cup *UpgradeClientProposal) ValidateBasic() error {
 		return err
 	}
 
-	return clientState.Validate()
+	if err := clientState.Validate(); err != nil {
+		return err
+	}
+
+	// nothing downstream validates the content of the consensus state the proposal installs
+	consensusState, err := UnpackConsensusState(cup.ConsensusState)
+	if err != nil {
+		return err
+	}
+
+	return consensusState.ValidateBasic()
 }
 
 // UnpackInterfaces implements UnpackInterfacesMessage.UnpackInterfaces
@@ -225,7 +245,17 @@ func (cup *ToggleClientProposal) ValidateBasic() error {
 		return err
 	}
 
-	return clientState.Validate()
+	if err := clientState.Validate(); err != nil {
+		return err
+	}
+
+	// nothing downstream validates the content of the consensus state the proposal installs
+	consensusState, err := UnpackConsensusState(cup.ConsensusState)
+	if err != nil {
+		return err
+	}
+
+	return consensusState.ValidateBasic()
 }
 
 // UnpackInterfaces implements UnpackInterfacesMessage.UnpackInterfaces
